@@ -196,7 +196,8 @@ package jobs
 //@   preserves raffle.*, map[string]*jobs.runState, runState.*, ticket.*, job.id, job.runner, job.pipeline, job.errorHandlers, []*jobs.ErrorHandler, Runner.*
 
 //@ unit (*job).Run
-//@   prop C11
+//@   prop C11 C17
+//@   ghost ticketG bool = false
 //@   requires [callers-hold-no-lock-at-or-above-the-raffle] forall l int :: has($held, l) ==> lockLevel(l) < 6
 //@   requires j != nil && j.runner != nil && j.runner.raffle != nil && j.runner.raffle.runningJobs != nil && !has($held, addrOf(j.runner.raffle.runningMu))
 //@   requires j.runner.raffle.ticketsFull >= 0 && j.runner.raffle.ticketsIncr >= 0
@@ -211,6 +212,10 @@ package jobs
 //@   ensures [lock-released] $held == old($held)
 //@   at call Since#1 before
 //@     assert [C17,C11:the-error-handling-sees-exactly-the-error-the-pipeline-returned-also-after-a-kill] pipelineErr == err
+//@   at call borrowTicket#1
+//@     ghost ticketG := $result != nil
+//@   at call instrumentErrorHandling#1 before
+//@     assert [C17,C11:handler-counters-are-reset-only-by-the-run-that-holds-the-ticket-never-by-a-skipped-trigger] ticketG
 
 // ---------------------------------------------------------------------------
 // C17: bounded re-runs: one failure schedules at most one re-run and consumes one retry at scheduling time
@@ -231,6 +236,10 @@ package jobs
 //@   modifies $scheduled, $persisted, $storeAttempted, ErrorHandler.MaxRetries, jobResult.*, SyncJobState.*, wrappedSink.lastProcessed, Cell.error, []interface{}
 //@   at call AfterFunc#1 before
 //@     assert [retry-budget-consumed-when-the-rerun-is-scheduled] eh.MaxRetries == old(eh.MaxRetries) - 1 && old(eh.MaxRetries) > 0
+//@   at call GetObject#1 before
+//@     assert [C11,C17:the-run-result-amended-with-the-per-entity-error-is-the-one-recorded-under-the-jobs-id] collection == server.JobResultIndex && id == j.id
+//@   at call StoreObject#1 before
+//@     assert [C11,C17:the-amended-run-result-is-recorded-under-the-jobs-id] collection == server.JobResultIndex && id == j.id && cast(data, "*jobs.jobResult") == lastRun
 //@   loop 1
 //@     invariant -1 <= $i && $i < len(j.errorHandlers)
 //@     invariant $scheduled == old($scheduled)
@@ -346,8 +355,30 @@ package jobs
 // scheduled, and only after verify accepted it; pause/resume re-store the definition loaded for that id with the flag
 // changed; deleting removes the record under the same key; a reset rewrites the stored continuation token of that job;
 // the definitions are reloaded at start from the JobConfigIndex collection.
-//@ assumed (*Scheduler).toTriggeredJobs
+// every trigger of a job definition becomes one job with a pipeline parsed for that trigger alone (the error handling
+// wraps the pipeline's sink with the trigger's own handlers, so two triggers must never share a pipeline) and with the
+// trigger's own error handlers
+//@ assumed (*Scheduler).toPipeline
 //@   pure
+//@ unit (*Scheduler).toTriggeredJobs
+//@   prop C17 C11 C14
+//@   ghost nPipesG int = 0
+//@   ghost lastPipeG iface
+//@   requires s != nil && jobConfig != nil
+//@   preserves Scheduler.*, JobConfiguration.*, Runner.*
+//@   ensures [C17,C11:one-job-per-trigger] ret1 == nil ==> len(ret0) == len(jobConfig.Triggers)
+//@   at call toPipeline#1 before
+//@     assert [C17:the-pipeline-is-parsed-for-the-triggers-own-job-type] $arg1 == jobConfig && $arg2 == t.JobType
+//@   at call toPipeline#1
+//@     ghost nPipesG := nPipesG + 1
+//@     ghost lastPipeG := $result0
+//@   at call append#1 before
+//@     assert [C17,C11:an-event-job-runs-the-pipeline-parsed-for-its-own-trigger-with-that-triggers-handlers] $arg1[0] != nil && $arg1[0].pipeline == lastPipeG && $arg1[0].errorHandlers == t.ErrorHandlers && $arg1[0].id == jobConfig.ID
+//@   at call append#2 before
+//@     assert [C17,C11:a-scheduled-job-runs-the-pipeline-parsed-for-its-own-trigger-with-that-triggers-handlers] $arg1[0] != nil && $arg1[0].pipeline == lastPipeG && $arg1[0].errorHandlers == t.ErrorHandlers && $arg1[0].id == jobConfig.ID
+//@   loop 1
+//@     invariant -1 <= $i && $i < len(jobConfig.Triggers) && len(result) == $i + 1
+//@     invariant [C17:a-pipeline-of-its-own-is-parsed-for-every-trigger] nPipesG == $i + 1
 //@ assumed errgroup.WithContext
 //@   pure
 //@ assumed (*errgroup.Group).Go
@@ -502,8 +533,6 @@ package jobs
 // ---------------------------------------------------------------------------
 // C09: the HTTP dataset sink drives a remote full sync through request headers: every run announces a sync of its own
 // (new id, start header on its first batch), every batch of the sync carries that id, and the end request names it
-//@ assumed (http.Header).Add
-//@   pure
 //@ unit (*httpDatasetSink).startFullSync
 //@   prop C09
 //@   ghost newIdG string = ""
@@ -527,4 +556,28 @@ package jobs
 //@     assert [C09:the-end-request-is-marked-as-the-end-of-a-sync] $arg1 == "universal-data-api-full-sync-end" && $arg2 == "true"
 //@   at call Add#2 before
 //@     assert [C09:the-end-request-names-the-sync-this-sink-started] $arg1 == "universal-data-api-full-sync-id" && $arg2 == httpDatasetSink.fullSyncID
+
+// ---------------------------------------------------------------------------
+// C13: identifiers coming back from an external transform are compacted with the split rule every other writer uses
+// (after the last '#', else after the last '/'), so one URI never gets two compact identifiers
+//@ assumed (*server.NamespaceManager).AssertPrefixMappingForExpansion
+//@   pure
+//@ unit (EgdmNamespaceManagerShim).GetPrefixedIdentifier
+//@   prop C13
+//@   ghost fullG string = ""
+//@   at call GetFullURI#1
+//@     ghost fullG := $result0
+//@   at call AssertPrefixMappingForExpansion#1 before
+//@     assert [C13:the-expansion-is-cut-after-the-last-hash-as-every-other-writer-does] uriExpansion + postfix == fullG && hasSuffix(uriExpansion, "#") && !contains(postfix, "#")
+//@   at call AssertPrefixMappingForExpansion#2 before
+//@     assert [C13:without-a-hash-the-expansion-is-cut-after-the-last-slash] uriExpansion + postfix == fullG && hasSuffix(uriExpansion, "/") && !contains(postfix, "/") && !contains(substr(fullG, 1, len(fullG) - 1), "#")
+//@ unit (EgdmNamespaceManagerShim).AssertPrefixedIdentifierFromURI
+//@   prop C13
+//@   ghost fullG string = ""
+//@   at call GetFullURI#1
+//@     ghost fullG := $result0
+//@   at call AssertPrefixMappingForExpansion#1 before
+//@     assert [C13:the-expansion-is-cut-after-the-last-hash-as-every-other-writer-does] uriExpansion + postfix == fullG && hasSuffix(uriExpansion, "#") && !contains(postfix, "#")
+//@   at call AssertPrefixMappingForExpansion#2 before
+//@     assert [C13:without-a-hash-the-expansion-is-cut-after-the-last-slash] uriExpansion + postfix == fullG && hasSuffix(uriExpansion, "/") && !contains(postfix, "/") && !contains(substr(fullG, 1, len(fullG) - 1), "#")
 
